@@ -49,7 +49,9 @@ def gen_shape(rng):
         # peer: a @property field whose getter return annotation AND setter parameter annotation name a (late or early) helper class
         classes.append({"refs": refs, "leaf_ge0": rng.random() < 0.4, "amt": rng.random() < 0.35, "peer": rng.random() < 0.2,
                         # lt: Optional['LateTop'] where LateTop is a MODULE-level class defined after everything else (also after a local scope)
-                        "lt": rng.random() < 0.25})
+                        "lt": rng.random() < 0.25,
+                        # amt2: the SAME late name as amt in a second annotation with other constraints (ge=200)
+                        "amt2": rng.random() < 0.5})
     return {"classes": classes, "fn": {"arg": rng.randrange(n), "ret": rng.randrange(n), "star": rng.choice([None, rng.randrange(n)])},
             # a subclass of one class of the system (inherits its late references), possibly used before its base
             "sub_of": rng.randrange(n) if rng.random() < 0.3 else None}
@@ -138,6 +140,8 @@ def source(shape, variant, uid):
             # a constrained reference to a plain class: by name (late or early), or direct in a local scope
             a = amt if variant["style"] == "local" else repr(amt)
             lines.append(f"{ind}    amt: {a} = Field(ge=1, le=100, default=5)")
+            if c.get("amt2"):
+                lines.append(f"{ind}    amt2: {a} = Field(ge=200, default=300)")
             if variant["amt_late"] and variant["style"] != "local":
                 late = True
             nondirect = True
@@ -226,6 +230,15 @@ def gen_data(rng, shape, i, depth, bad_at=None, path=()):
             exp["amt"] = int(a)
         else:
             exp["amt"] = 5
+        if c.get("amt2"):
+            a2 = rng.choice([None, None, "250", 200, 50, 1000])
+            if a2 is not None:
+                data["amt2"] = a2
+                if int(a2) < 200:
+                    bad = True
+                exp["amt2"] = int(a2)
+            else:
+                exp["amt2"] = 300
     if c.get("lt"):
         if rng.random() < 0.6:
             m = rng.choice(["3", 4, "x"] if rng.random() < 0.15 else ["3", 4])
@@ -476,6 +489,8 @@ def bare_exp(shape, ci, v):
     e = {"v": v}
     if c["amt"]:
         e["amt"] = 5
+        if c.get("amt2"):
+            e["amt2"] = 300
     if c.get("lt"):
         e["lt"] = None
     if c.get("peer"):
